@@ -219,8 +219,10 @@ theorem Adv.sum {mf : Nat} {dia : Dialect} {s s1 : BS} {fix : Bool} {c' : CU} (a
 
 /-- exit relation of the token scans: the token value the parser will read is the lexer model's text, the rest of the
     input, line and column agree; `text.length + remaining.length` is conserved (no unit lost or duplicated) -/
-structure Out (mf L0 : Nat) (s' : BS) (sc : Scanned) : Prop where
+structure Out (mf L0 : Nat) (W : Bool) (s' : BS) (sc : Scanned) : Prop where
   good : Good mf s'
+  /-- `W`: the token value is the whole token text (`tvalue_start == text_start`, value ends at `next_char`) -/
+  whole : W = true → s'.sb.tvalueOffset = 0 ∧ s'.sb.tvalueStart + s'.tvlen = s'.sb.next
   value : s'.value = sc.acc.reverse
   bound : s'.sb.tvalueStart + s'.tvlen ≤ s'.sb.next
   rem : s'.remaining = sc.pos.rest
@@ -234,13 +236,22 @@ theorem reverse_drop_reverse (l : Str) (d : Nat) : (l.reverse.drop d).reverse = 
 /-- `TVALUE_INCSTART(k); TVALUE_SETLENGTH(next_char - tvalue_start - dsize)` with `tvalue_start == text_start` before -/
 theorem out_endDelim (mf L0 : Nat) (s : BS) (k d : Nat) (g : Good mf s) (h0 : s.sb.tvalueOffset = 0) (hk : k ≤ s.text.length)
     (hL : s.text.length + s.remaining.length = L0) :
-    Out mf L0 (endDelim s k d) ⟨(racc k s).drop d, ⟨s.remaining, s.line, s.col⟩⟩ := by
+    Out mf L0 (k == 0 && d == 0) (endDelim s k d) ⟨(racc k s).drop d, ⟨s.remaining, s.line, s.col⟩⟩ := by
   obtain ⟨h1, h2, h3, h4, h5⟩ := g.inv
   have hlen := g.text_length
   have hts : s.sb.tvalueStart = s.sb.textStart := by simp only [SB.tvalueOffset] at h0; omega
   refine ⟨⟨⟨by show s.sb.textStart ≤ s.sb.tvalueStart + k; omega, by show s.sb.tvalueStart + k ≤ s.sb.next; omega, h3, h4, h5⟩,
-    g.size, g.mf, g.ok, g.eof⟩, ?_, by show s.sb.tvalueStart + k + (s.sb.next - (s.sb.tvalueStart + k) - d) ≤ s.sb.next; omega,
+    g.size, g.mf, g.ok, g.eof⟩, ?_, ?_, by show s.sb.tvalueStart + k + (s.sb.next - (s.sb.tvalueStart + k) - d) ≤ s.sb.next; omega,
     rfl, rfl, rfl, hL⟩
+  · intro hw
+    simp only [Bool.and_eq_true, beq_iff_eq] at hw
+    obtain ⟨hk0, hd0⟩ := hw
+    subst hk0; subst hd0
+    refine ⟨?_, ?_⟩
+    · show s.sb.tvalueStart + 0 - s.sb.textStart = 0
+      omega
+    · show s.sb.tvalueStart + 0 + (s.sb.next - (s.sb.tvalueStart + 0) - 0) = s.sb.next
+      omega
   show (s.sb.buffer.drop (s.sb.tvalueStart + k)).take (s.sb.next - (s.sb.tvalueStart + k) - d) = ((racc k s).drop d).reverse
   unfold racc
   rw [reverse_drop_reverse, List.length_drop, hlen, hts]
@@ -303,7 +314,7 @@ theorem unpairedLeadB_sim (mf : Nat) (dia : Dialect) (s : BS) (lead : Bool) (k :
 theorem scanToWsB_sim (dia : Dialect) (mf L0 : Nat) : ∀ (fuel : Nat) (s : BS) (top : Nat) (lead : Bool), Good mf s →
     top = s.sb.limit → s.sb.tvalueOffset = 0 → (lead = true → 0 < s.text.length) → s.measure < fuel →
     s.text.length + s.remaining.length = L0 →
-    Sim (Out mf L0) (scanToWsB dia mf fuel s top lead) (scanToWs dia s.remaining s.line s.col lead (racc 0 s)) := by
+    Sim (Out mf L0 true) (scanToWsB dia mf fuel s top lead) (scanToWs dia s.remaining s.line s.col lead (racc 0 s)) := by
   intro fuel
   induction fuel with
   | zero => intro s top lead g ht h0 hl hm hL; omega
@@ -359,7 +370,7 @@ theorem scanToWsB_sim (dia : Dialect) (mf L0 : Nat) : ∀ (fuel : Nat) (s : BS) 
 theorem scanToEolB_sim (dia : Dialect) (mf L0 : Nat) : ∀ (fuel : Nat) (s : BS) (top : Nat) (lead : Bool), Good mf s →
     top = s.sb.limit → s.sb.tvalueOffset = 0 → (lead = true → 0 < s.text.length) → s.measure < fuel →
     s.text.length + s.remaining.length = L0 →
-    Sim (Out mf L0) (scanToEolB dia mf fuel s top lead) (scanToEol dia s.remaining s.line s.col lead (racc 0 s)) := by
+    Sim (Out mf L0 true) (scanToEolB dia mf fuel s top lead) (scanToEol dia s.remaining s.line s.col lead (racc 0 s)) := by
   intro fuel
   induction fuel with
   | zero => intro s top lead g ht h0 hl hm hL; omega
@@ -417,7 +428,7 @@ theorem scanToEolB_sim (dia : Dialect) (mf L0 : Nat) : ∀ (fuel : Nat) (s : BS)
 theorem scanUnquotedB_sim (dia : Dialect) (mf L0 : Nat) : ∀ (fuel : Nat) (s : BS) (top : Nat) (lead : Bool) (k : Nat) (kd ks : Bool),
     Good mf s → top = s.sb.limit → s.sb.tvalueOffset = 0 → (lead = true → 0 < s.text.length) → s.measure < fuel →
     s.text.length + s.remaining.length = L0 →
-    Sim (Out mf L0) (scanUnquotedB dia mf fuel s top lead k kd ks)
+    Sim (Out mf L0 true) (scanUnquotedB dia mf fuel s top lead k kd ks)
       (scanUnquoted dia s.remaining s.line s.col lead (racc 0 s) k kd ks) := by
   intro fuel
   induction fuel with
@@ -432,13 +443,13 @@ theorem scanUnquotedB_sim (dia : Dialect) (mf L0 : Nat) : ∀ (fuel : Nat) (s : 
       apply scanU_sim mf dia s lead 0 g hlt (Nat.zero_le _) hl
       intro u hfl a hr
       have hrem : (s.remaining).tail = (stepU dia s u).remaining := by rw [a.rem]; rfl
-      have hback : Out mf L0 (endTok (backUp (stepU dia s u)))
+      have hback : Out mf L0 true (endTok (backUp (stepU dia s u)))
           ⟨fixAcc dia u.fixPrev (racc 0 s), ⟨u.c :: (s.remaining).tail, s.line, u.col - 1⟩⟩ := by
         have b := adv_backUp a g 0 (Nat.zero_le _)
         have o := out_endDelim mf L0 (backUp (stepU dia s u)) 0 0 b.1 (by rw [b.2.2.2.2.2.1, h0]) (Nat.zero_le _) (by rw [b.2.2.2.2.2.2.2, hL])
         rw [b.2.1, hr, b.2.2.1, b.2.2.2.1, b.2.2.2.2.1, stepU_col, stepU_line, ← hrem] at o
         exact o
-      have hgo : ∀ k' kd' ks', Sim (Out mf L0) (scanUnquotedB dia mf fuel (stepU dia s u) s.sb.limit u.lead k' kd' ks')
+      have hgo : ∀ k' kd' ks', Sim (Out mf L0 true) (scanUnquotedB dia mf fuel (stepU dia s u) s.sb.limit u.lead k' kd' ks')
           (scanUnquoted dia (s.remaining).tail s.line u.col u.lead (u.c :: fixAcc dia u.fixPrev (racc 0 s)) k' kd' ks') := by
         intro k' kd' ks'
         have := ih (stepU dia s u) s.sb.limit u.lead k' kd' ks' a.good a.limit.symm (by rw [a.tvoff, h0])
@@ -517,7 +528,7 @@ theorem L.bind_assoc {α β γ : Type} (m : L α) (f : α → L β) (g : β → 
 theorem scanTripleB_sim (dia : Dialect) (mf L0 : Nat) (delim : CU) : ∀ (fuel : Nat) (s : BS) (top : Nat) (lead : Bool) (dc sol : Nat),
     Good mf s → top = s.sb.limit → s.sb.tvalueOffset = 0 → 3 ≤ s.text.length → (lead = true → 3 < s.text.length) →
     s.measure < fuel → s.text.length + s.remaining.length = L0 →
-    Sim (Out mf L0) (scanTripleB dia mf delim fuel s top lead dc sol)
+    Sim (Out mf L0 false) (scanTripleB dia mf delim fuel s top lead dc sol)
       (scanTriple dia delim s.remaining s.line s.col lead (racc 3 s) dc sol) := by
   intro fuel
   induction fuel with
@@ -532,7 +543,7 @@ theorem scanTripleB_sim (dia : Dialect) (mf L0 : Nat) (delim : CU) : ∀ (fuel :
       apply scanU_sim mf dia s lead 3 g hlt h3 hl
       intro u hfl a hr
       have hrem : (s.remaining).tail = (stepU dia s u).remaining := by rw [a.rem]; rfl
-      have hgo : ∀ l' c' dc' sol', Sim (Out mf L0)
+      have hgo : ∀ l' c' dc' sol', Sim (Out mf L0 false)
           (scanTripleB dia mf delim fuel { stepU dia s u with line := l', col := c' } s.sb.limit u.lead dc' sol')
           (scanTriple dia delim (s.remaining).tail l' c' u.lead (u.c :: fixAcc dia u.fixPrev (racc 3 s)) dc' sol') := by
         intro l' c' dc' sol'
@@ -673,7 +684,7 @@ theorem scanTextB_sim (dia : Dialect) (mf L0 : Nat) : ∀ (fuel : Nat) (s : BS) 
     Good mf s → top = s.sb.limit → s.sb.tvalueOffset = 0 → 1 ≤ s.text.length → (lead = true → 1 < s.text.length) →
     (sol ≠ 0 → 1 < s.text.length) → s.text.head? ≠ some 13 →
     s.measure < fuel → s.text.length + s.remaining.length = L0 →
-    Sim (Out mf L0) (scanTextB dia mf fuel s top lead sol)
+    Sim (Out mf L0 false) (scanTextB dia mf fuel s top lead sol)
       (scanText dia s.remaining s.line s.col lead (racc 1 s) sol) := by
   intro fuel
   induction fuel with
@@ -688,7 +699,7 @@ theorem scanTextB_sim (dia : Dialect) (mf L0 : Nat) : ∀ (fuel : Nat) (s : BS) 
       apply scanU_sim mf dia s lead 1 g hlt h1 hl
       intro u hfl a hr
       have hrem : (s.remaining).tail = (stepU dia s u).remaining := by rw [a.rem]; rfl
-      have hgo : ∀ l' c' sol', Sim (Out mf L0)
+      have hgo : ∀ l' c' sol', Sim (Out mf L0 false)
           (scanTextB dia mf fuel { stepU dia s u with line := l', col := c' } s.sb.limit u.lead sol')
           (scanText dia (s.remaining).tail l' c' u.lead (u.c :: fixAcc dia u.fixPrev (racc 1 s)) sol') := by
         intro l' c' sol'
@@ -797,7 +808,7 @@ theorem scanDelimB_sim (dia : Dialect) (mf L0 : Nat) (delim : CU) : ∀ (fuel : 
     Good mf s → top = s.sb.limit → s.sb.tvalueOffset = 0 → 1 ≤ s.text.length → (lead = true → 1 < s.text.length) →
     (first = true ↔ s.text.length = 1) → s.text.head? = some delim →
     s.measure < fuel → s.text.length + s.remaining.length = L0 →
-    Sim (Out mf L0) (scanDelimB dia mf delim fuel s top lead)
+    Sim (Out mf L0 false) (scanDelimB dia mf delim fuel s top lead)
       (scanDelim dia delim s.remaining s.line s.col lead (racc 1 s) first) := by
   intro fuel
   induction fuel with
@@ -813,7 +824,7 @@ theorem scanDelimB_sim (dia : Dialect) (mf L0 : Nat) (delim : CU) : ∀ (fuel : 
       intro u hfl a hr
       have hrem : (s.remaining).tail = (stepU dia s u).remaining := by rw [a.rem]; rfl
       have hfx : u.fixPrev = true → 1 < s.text.length := fun h => hl (hfl h)
-      have hgo : ∀ (s2 : BS), Same mf (stepU dia s u) s2 → Sim (Out mf L0)
+      have hgo : ∀ (s2 : BS), Same mf (stepU dia s u) s2 → Sim (Out mf L0 false)
           (scanDelimB dia mf delim fuel s2 s2.sb.limit u.lead)
           (scanDelim dia delim (s.remaining).tail s.line u.col u.lead (u.c :: fixAcc dia u.fixPrev (racc 1 s)) false) := by
         intro s2 sm
@@ -830,7 +841,7 @@ theorem scanDelimB_sim (dia : Dialect) (mf L0 : Nat) (delim : CU) : ∀ (fuel : 
       · simp only [hd, if_true]
         have pk := peekChar_spec mf (stepU dia s u) a.good
         have sm := pk.1
-        have hclose : Out mf L0 (endDelim (peekChar mf (stepU dia s u)).2 1 1)
+        have hclose : Out mf L0 false (endDelim (peekChar mf (stepU dia s u)).2 1 1)
             ⟨fixAcc dia u.fixPrev (racc 1 s), ⟨(s.remaining).tail, s.line, u.col⟩⟩ := by
           have o := out_endDelim mf L0 (peekChar mf (stepU dia s u)).2 1 1 sm.good (by rw [sm.tvoff, a.tvoff, h0])
             (by rw [sm.text, a.tlen g]; omega) (by rw [sm.sum, a.sum g, hL])
